@@ -148,9 +148,13 @@ func init() {
 							desc = append(desc, fmt.Sprintf("(%d,%d,%d,%d,%d)", t.h, t.x, t.y, t.v, t.z))
 						}
 						call := fmt.Sprintf("transform.ConvertTileXYZsToExtendedSpatialIDs(%v, %d, %d, %d)", desc, e, o, outV)
+						reqBefore := snapObjects(req)
 						got, err := transform.ConvertTileXYZsToExtendedSpatialIDs(req, e, o, outV)
 						c.Observe("%s -> %d %v", call, len(got), err)
 						d := map[string]any{"call": call, "err": fmt.Sprint(err), "got_n": len(got)}
+						if snapObjects(req) != reqBefore {
+							c.Violation("C13:ConvertTileXYZsToExtendedSpatialIDs:modifies-the-callers-tile-objects", d)
+						}
 						for _, t := range tiles {
 							if t.z < 0 || t.z >= int64(1)<<uint(t.v) {
 								continue
